@@ -177,7 +177,7 @@ func rulesRepl(c *Ctx) {
 			}
 		}
 	}
-	c.floor("Q1", "enqueue functions", len(enq), 2)
+	c.floor("Q1", "enqueue functions", len(enq), 1)
 	blocked := map[int64]bool{}
 	for _, f := range enq {
 		eachInstr(f, func(in ssa.Instruction) {
@@ -622,9 +622,30 @@ func (c *Ctx) ruleG2() {
 		// candidate consumers: function literals started with go, and methods / functions
 		// started with go from the host (or one of its literals)
 		var cands []*ssa.Function
-		for _, g := range withClosures(host) {
-			if g != host {
-				if spawn, _ := goSpawnOf(g); spawn != nil {
+		// the channel may be created, and its consumer started, by the caller of the function
+		// that hands it to the fetcher
+		hosts := []*ssa.Function{host}
+		for _, q := range c.RepoFns {
+			if c.isTestFile(q.Pos()) {
+				continue
+			}
+			eachCall(q, func(call ssa.CallInstruction) {
+				if call.Common().StaticCallee() == host && topLevel(q) != host {
+					hosts = append(hosts, topLevel(q))
+				}
+			})
+		}
+		var scope []*ssa.Function
+		seenHost := map[*ssa.Function]bool{}
+		for _, h := range hosts {
+			if !seenHost[h] {
+				seenHost[h] = true
+				scope = append(scope, withClosures(h)...)
+			}
+		}
+		for _, g := range scope {
+			if g.Parent() != nil {
+				if spawn, _ := c.goSpawnOf(g); spawn != nil {
 					cands = append(cands, g)
 				}
 			}
@@ -765,6 +786,42 @@ func (c *Ctx) ruleL2(fns []*ssa.Function) {
 				nexts = append(nexts, call.Value())
 			}
 		})
+		// the links may be collected by a same-package function given the fetched log
+		eachCall(f, func(call ssa.CallInstruction) {
+			h := call.Common().StaticCallee()
+			if h == nil || h.Blocks == nil || h.Pkg != f.Pkg || call.Value() == nil {
+				return
+			}
+			var ps []ssa.Value
+			for i, a := range call.Common().Args {
+				if d[a] && i < len(h.Params) {
+					ps = append(ps, h.Params[i])
+				}
+			}
+			if len(ps) == 0 {
+				return
+			}
+			dh := derived(ps, flowOpts{throughCalls: true})
+			var hn []ssa.Value
+			eachCall(h, func(ic ssa.CallInstruction) {
+				if methodName(ic) == "GetNext" && ic.Common().IsInvoke() && dh[ic.Common().Value] && ic.Value() != nil {
+					hn = append(hn, ic.Value())
+				}
+			})
+			if len(hn) == 0 {
+				return
+			}
+			dr := derived(hn, flowOpts{})
+			eachInstr(h, func(in ssa.Instruction) {
+				if r, ok := in.(*ssa.Return); ok {
+					for _, v := range r.Results {
+						if dr[v] {
+							nexts = append(nexts, call.Value())
+						}
+					}
+				}
+			})
+		})
 		if len(nexts) == 0 {
 			c.bad("L2", fk+"#next-links", f.Pos(), "the hashes handed back after fetching a log do not include the fetched entries' next links: the ancestry of an announced head is never requested")
 			continue
@@ -799,12 +856,10 @@ func (c *Ctx) ruleL2(fns []*ssa.Function) {
 					if h == nil {
 						return
 					}
-					enq := false
-					eachCall(h, func(a ssa.CallInstruction) {
-						if m := a.Common().StaticCallee(); m != nil && m.Name() == "Add" && m.Signature.Recv() != nil && strings.Contains(typeStr(m.Signature.Recv().Type()), "processQueue") {
-							enq = true
-						}
-					})
+					enq := c.reachesStatic(h, func(a ssa.CallInstruction) bool {
+						m := a.Common().StaticCallee()
+						return m != nil && m.Name() == "Add" && m.Signature.Recv() != nil && strings.Contains(typeStr(m.Signature.Recv().Type()), "processQueue")
+					}, 0)
 					if !enq {
 						return
 					}
